@@ -138,7 +138,9 @@ def _bounds_run(fail_call, kindname):
         from pyvc.values import real
 
         h.interp.fault_plan = {"fail_call": fail_call, "kind": kindname}
-        h.default_replay = lambda ev: {"target": "verif_replays:failing_solve_tables_replay", "args": [], "check": "result['exc'] is None and result['ok']"}
+        # (an inaccurate solution goes through cvxpy's own warning and the warning filters in force; an outright failure is an
+        # exception of the solve)
+        h.default_replay = lambda ev: {"target": "verif_replays:inaccurate_solution_in_a_run_replay" if kindname == "UserWarning" else "verif_replays:failing_solve_tables_replay", "args": [], "check": "result['exc'] is None and result['ok']"}
         t, self, alpha, kind, res = C03.run_np_intervals(h)
         if kind == "raise":
             return h.fail("the_run_completes", f"raised {res}")
@@ -148,7 +150,7 @@ def _bounds_run(fail_call, kindname):
         if len(qs) != 2:
             return
         failed, other = (qs[0], qs[1]) if fail_call == 0 else (qs[1], qs[0])
-        h.ensures("only_the_failed_fit_is_repeated", len(failed.calls) == 2 and len(other.calls) == 1, why=f"{[len(q.calls) for q in qs]} solves per solver object")
+        h.ensures("only_the_failed_fit_is_repeated", len(failed.calls) == 2 and len(other.calls) == 1, why=f"{[len(q.calls) for q in qs]} solves per solver object", replay=h.default_replay)
         if len(failed.calls) != 2 or len(other.calls) != 1:
             return
         a, b = failed.calls
